@@ -172,6 +172,9 @@ func GoDiv(a, b *Term) *Term {
 	if a.IsInt() && b.IsInt() && b.Int.Sign() != 0 {
 		return BigC(new(big.Int).Quo(a.Int, b.Int))
 	}
+	if b.IsInt() && b.Int.Sign() > 0 {
+		return Ite(Ge(a, IntC(0)), EDiv(a, b), Neg(EDiv(Neg(a), b)))
+	}
 	// trunc(a/b) = sign handling: if a >= 0 then a div b (b>0) ...
 	// general: ite(a>=0, ite(b>0, a div b, -(a div -b)), ite(b>0, -((-a) div b), (-a) div (-b)))
 	return Ite(Ge(a, IntC(0)),
@@ -181,6 +184,9 @@ func GoDiv(a, b *Term) *Term {
 func GoMod(a, b *Term) *Term {
 	if a.IsInt() && b.IsInt() && b.Int.Sign() != 0 {
 		return BigC(new(big.Int).Rem(a.Int, b.Int))
+	}
+	if b.IsInt() && b.Int.Sign() > 0 {
+		return Ite(Ge(a, IntC(0)), EMod(a, b), Neg(EMod(Neg(a), b)))
 	}
 	return Sub(a, Mul(b, GoDiv(a, b)))
 }
